@@ -77,7 +77,7 @@ class UserError(Exception):
 
 EXC = [ValueError, KeyError, RuntimeError, ZeroDivisionError, OSError, LookupError, AttributeError, UnicodeError,
        AssertionError, StopIteration, UserError, TypeError, IndexError, NotImplementedError]
-MSGS = ["", "boom", "é€", "a: b | c", "%s {0}"]
+MSGS = ["", "boom", "é€", "a: b | c", "%s {0}", "m" * 300 + "-tail", "a long message, " * 300 + "end"]
 
 _W = {}
 
@@ -245,6 +245,63 @@ def cases_names(tier):
             yield ("SEQ", tuple(seq))
 
 
+# registrations that change between two requests to one dispatcher: every request is resolved against the current registry
+
+MUTATIONS = ["swap-instance", "drop-instance-attribute", "add-function", "remove-function", "swap-back"]
+MUT_NAMES = ["pub", "sub.deep", "sub.inner.leaf", "only_here", "f", "pair", "nosuch", "attr"]
+
+
+def cases_mutations(tier):
+    for version in (2.0, 1.0):
+        for n in MUT_NAMES:
+            for k in (1, 2):
+                for muts in itertools.product(range(len(MUTATIONS)), repeat=k):
+                    yield ("MUT", version, n, muts)
+
+
+def check_mutations(case):
+    _, version, name, muts = case
+    w = ref.World(version=version, use_jsonclass=True, dispatch="default", instance="plain")
+    out = Out(cls="registry-history")
+    first = w.instance
+
+    def step(label):
+        for n in (name, "only_here", "pub"):
+            viols, lab, dom = ref.evaluate_body(w, B.dumps(obj("2.0", 1, n, [])))
+            for prop, sig, detail in viols:
+                if prop in PROPS:
+                    out.bad(sig + "/after-registry-change" if label else sig, "%s, %s: %s" % (case, label or "initially", detail))
+
+    step("")
+    for mi in muts:
+        m = MUTATIONS[mi]
+        if m == "swap-instance":
+            w.instance = ref.OtherInst(w.log)
+            w.d.register_instance(w.instance)
+        elif m == "swap-back":
+            w.instance = first
+            w.d.register_instance(first)
+        elif m == "drop-instance-attribute":
+            if isinstance(w.instance, ref.Inst) and hasattr(w.instance, "sub"):
+                del w.instance.sub
+        elif m == "add-function":
+            def added(*a):
+                w.log.append((name, list(a), {}))
+                return "ADDED"
+            w.funcs[name] = added
+            w.d.register_function(added, name)
+        elif m == "remove-function":
+            if name in w.funcs:
+                del w.funcs[name]
+                del w.d.funcs[name]
+        step("after %s" % m)
+        if out.viols:
+            break
+    if hasattr(first, "sub") is False:
+        pass
+    return out
+
+
 def hash_mod(s):
     return sum(ord(c) * (i + 1) for i, c in enumerate(s))
 
@@ -287,6 +344,14 @@ def cases_exceptions(tier):
                 yield (w, B.dumps(obj("2.0", 5, name)))
                 yield (w, B.dumps(obj(ABSENT, 5, name, [])))
             yield (W_DEFAULT[0], B.dumps([obj("2.0", 1, "f"), obj("2.0", 5, name), obj("2.0", ABSENT, name)]))
+    # the exception comes from a dispatch function given to the dispatcher / from the registered instance's own _dispatch
+    for w in ((2.0, True, "custom-raise", None), (1.0, True, "custom-raise", None), (2.0, True, "default", "dispatching"), (1.0, False, "default", "dispatching")):
+        for m, p in (("anything", []), ("pair", [1, 2]), ("a.b", {"k": 1}), ("f", [])):
+            if m == "f" and w[3] == "dispatching":
+                continue  # registered functions win over the instance
+            yield (w, B.dumps(obj("2.0", 5, m, p)))
+            yield (w, B.dumps(obj(ABSENT, 6, m, p)))
+            yield (w, B.dumps([obj("2.0", 7, m, p), obj("2.0", ABSENT, m, p)]))
 
 
 # ---------------------------------------------------------------------------
@@ -352,6 +417,7 @@ LEGS = {
     "invalid": leg("invalid", cases_invalid),
     "translator": leg("translator", cases_translator, check_translator),
     "names": leg("names", cases_names),
+    "registry-history": leg("registry-history", cases_mutations, check_mutations),
     "arity": leg("arity", cases_arity),
     "exceptions": leg("exceptions", cases_exceptions),
     "client": leg("client", cases_client, check_client),
@@ -362,8 +428,9 @@ META = {
     "inspect.signature binding, attribute-path resolution)",
     "rule": "malformed: truncations/corruptions of seed requests + non-JSON texts; invalid: jsonrpc(6) x id(5) x method(11) x params(13); "
     "translator: 24 rejected descriptor shapes x 8 placements; names: every dotted path of <=3 segments over a 13-segment alphabet (quick: a "
-    "third of the 3-segment paths) against function table and instance; arity: 9 signatures x 21 argument shapes; exceptions: 14 classes x 5 "
-    "messages; client: the codes surfaced as ProtocolError through a loopback ServerProxy; non-trivial = inside the property's domain",
+    "third of the 3-segment paths) against function table and instance; arity: 9 signatures x 21 argument shapes; registry-history: every sequence of <=2 registry changes (instance "
+    "replaced / restored, attribute removed, function added / removed) with 8 names resolved before and after each change on one dispatcher; exceptions: 14 "
+    "classes x 7 messages (incl. 306 and 4803 characters), and exceptions raised by a custom dispatch function and by an instance's own _dispatch; client: the codes surfaced as ProtocolError through a loopback ServerProxy; non-trivial = inside the property's domain",
     "bounds": {"quick": {"segments": 3, "seeds": 6}, "thorough": {"segments": 3, "seeds": 12}},
     "assumptions": [
         "an attribute path that exists but is not callable may be answered -32601 or -32602 (the property fixes neither)",
@@ -378,6 +445,8 @@ def replay(case):
     _W.clear()
     if case["leg"] == "translator":
         return check_translator(c).viols
+    if case["leg"] == "registry-history":
+        return check_mutations(c).viols
     if case["leg"] == "client":
         return check_client(c).viols
     return evaluate(c).viols
